@@ -10,7 +10,7 @@ validates the translation natively against the g++ build of the same wrappers, r
 counterexample against the real code, applies known_findings.json, writes evidence/<ID>.json,
 prints VIOLATION / KNOWN-FINDING lines and exits 0 (held), 1 (violation) or 2 (inconclusive).
 """
-import argparse, concurrent.futures as cf, hashlib, importlib.util, json, os, re, resource, shutil, subprocess, sys, time
+import argparse, threading, concurrent.futures as cf, hashlib, importlib.util, json, os, re, resource, shutil, subprocess, sys, time
 
 ROOT = os.path.dirname(os.path.dirname(os.path.abspath(__file__)))
 TAG = os.environ.get('VERIF_TAG', '')   # set by tools/seedrun.sh: separate build/replay/evidence directories for runs against a scratch tree
@@ -35,10 +35,10 @@ CBMC_BASE = ['--unwinding-assertions', '--drop-unused-functions', '--no-malloc-m
 class Unit:
     """one wrappers translation unit + the harness sources that drive it"""
     def __init__(self, name, wrappers, harness, cxxflags=(), inert=(), rt=('verif_rt.c',), tv=None, ir2c_flags=(),
-                 real_extra=(), tv_iters=3000, hooks_in_harness=True):
+                 real_extra=(), tv_iters=3000, hooks_in_harness=True, inc=()):
         self.name = name; self.wrappers = wrappers; self.harness = list(harness); self.cxxflags = list(cxxflags)
         self.inert = list(inert); self.rt = list(rt); self.tv = tv or []; self.ir2c_flags = list(ir2c_flags)
-        self.real_extra = list(real_extra); self.tv_iters = tv_iters
+        self.real_extra = list(real_extra); self.tv_iters = tv_iters; self.inc = ['-I' + os.path.join(ROOT, 'props', x) for x in inc]
 
 
 class Ob:
@@ -82,7 +82,7 @@ class Runner:
         self.prop = prop; self.id = prop.ID; self.tier = tier; self.jobs = jobs; self.only = only; self.keep = keep
         self.seed = seed
         self.bdir = os.path.join(ROOT, 'build', self.id + ('.' + TAG if TAG else ''))
-        self.units = {}; self.log = []
+        self.units = {}; self.log = []; self.gb_cache = {}; self.gb_lock = threading.Lock(); self.san_locks = {}
         self.kf_all = json.load(open(os.path.join(ROOT, 'known_findings.json')))['findings']
         self.kf_open = [k for k in self.kf_all if k['property'] == self.id and k['status'] == 'open']
 
@@ -95,7 +95,7 @@ class Runner:
         src = os.path.join(d, 'wrappers.cpp')
         text = u.wrappers() if callable(u.wrappers) else open(os.path.join(ROOT, 'props', self.id, u.wrappers)).read()
         open(src, 'w').write(text)
-        inc = ['-I' + os.path.join(REPO, 'include'), '-I' + os.path.join(ROOT, 'props', self.id), '-I' + RT]
+        inc = ['-I' + os.path.join(REPO, 'include'), '-I' + os.path.join(ROOT, 'props', self.id), '-I' + RT] + u.inc
         ll = os.path.join(d, 'wrappers.ll')
         rc, out, err, t = sh([CLANG] + IRFLAGS + u.cxxflags + inc + [src, '-o', ll], timeout=600)
         if rc != 0:
@@ -136,7 +136,7 @@ class Runner:
     def tv(self, u, fn, defines):
         d = u.dir
         tag = fn + hashlib.md5(' '.join(defines).encode()).hexdigest()[:6]
-        common = ['-O1', '-w', '-DVERIF_TV', '-DHARNESS=' + fn, '-I' + RT, '-I' + d, '-I' + os.path.join(ROOT, 'props', self.id)] + ['-D' + x for x in defines]
+        common = ['-O1', '-w', '-DVERIF_TV', '-DHARNESS=' + fn, '-I' + RT, '-I' + d, '-I' + os.path.join(ROOT, 'props', self.id)] + u.inc + ['-D' + x for x in defines]
         gen = os.path.join(d, 'tv_gen_' + tag); real = os.path.join(d, 'tv_real_' + tag)
         rc, out, err, _ = sh(['gcc'] + common + self.hpaths(u) + [os.path.join(RT, f) for f in u.rt] +
                              [os.path.join(d, 'gen.o'), os.path.join(RT, 'native_main.c'), '-o', gen, '-lm'], timeout=600)
@@ -155,9 +155,7 @@ class Runner:
     # ------------------------------------------------------------------ cbmc
     def cbmc_cmd(self, ob, extra_defines=(), trace_property=None, backend=None, unwindset_override=None):
         u = self.units[ob.unit]
-        cmd = ['cbmc'] + self.hpaths(u) + [os.path.join(RT, f) for f in u.rt] + [os.path.join(u.dir, 'gen.c')]
-        cmd += ['-I' + RT, '-I' + u.dir, '-I' + os.path.join(ROOT, 'props', self.id)]
-        cmd += ['-D' + x for x in list(ob.defines) + list(extra_defines)]
+        cmd = ['cbmc', self.goto_binary(u, list(ob.defines) + list(extra_defines))]
         cmd += ['--function', ob.fn, '--unwind', str(ob.unwind)] + CBMC_BASE + BACKENDS[backend or ob.backend] + ob.flags
         ov = dict(getattr(ob, 'unwind_refined', {})); ov.update(unwindset_override or {})
         us = ['%s:%d' % kv for kv in ov.items()] + [x for x in ob.unwindset if x.split(':')[0] not in ov]
@@ -165,6 +163,25 @@ class Runner:
         cmd += ['--unwindset', ','.join(us)]
         if trace_property: cmd += ['--trace', '--property', trace_property]
         return cmd
+
+    def goto_binary(self, u, defines):
+        """harness + rt models + translated C compiled ONCE per (unit, defines) with goto-cc; every obligation with the same defines
+        starts from that goto binary (parsing the sources again for each obligation dominated the cost of small obligations)"""
+        key = (u.name, tuple(defines))
+        with self.gb_lock:
+            ev = self.gb_cache.get(key)
+            if ev is None:
+                ev = self.gb_cache[key] = {'lock': threading.Lock(), 'path': None, 'err': None}
+        with ev['lock']:
+            if ev['path'] is None and ev['err'] is None:
+                out = os.path.join(u.dir, 'h_%s.gb' % hashlib.md5(' '.join(defines).encode()).hexdigest()[:10])
+                cmd = ['goto-cc', '-D__CPROVER__', '-o', out] + self.hpaths(u) + [os.path.join(RT, f) for f in u.rt] + [os.path.join(u.dir, 'gen.c')]
+                cmd += ['-I' + RT, '-I' + u.dir, '-I' + os.path.join(ROOT, 'props', self.id)] + u.inc + ['-D' + x for x in defines]
+                rc, o, e, t = sh(cmd, timeout=900)
+                if rc != 0: ev['err'] = (o + e)[-2000:]
+                else: ev['path'] = out
+        if ev['err']: raise Inconclusive('goto-cc failed for unit %s %s:\n%s' % (u.name, defines, ev['err']))
+        return ev['path']
 
     def run_cbmc(self, ob, extra_defines=(), trace_property=None, backend=None, timeout=None, unwindset_override=None):
         to = timeout or ob.timeout or (180 if self.tier == 'quick' else 1800)
@@ -190,7 +207,9 @@ class Runner:
             r['status'] = 'error' if rc not in (-9, 137) else 'oom'
             if rc < 0 and not r['errors']: r['status'] = 'oom'
             return r
-        bad = [p for p in r['props'] if not p['description'].startswith('WITNESS:') and p['status'] != 'SUCCESS']
+        focus = getattr(ob, 'focus', None)   # obligations shared by two properties: assertions tagged for the other property do not decide this one
+        other = lambda d: focus is not None and re.match(r'^C\d\d: ', d) is not None and not d.startswith(focus)
+        bad = [p for p in r['props'] if not p['description'].startswith('WITNESS:') and p['status'] != 'SUCCESS' and not other(p['description'])]
         wit = [p for p in r['props'] if p['description'].startswith('WITNESS:')]
         r['witnesses_fired'] = sorted(set(p['description'][8:] for p in wit if p['status'] == 'FAILURE'))
         r['witnesses_dead'] = sorted(set(p['description'][8:] for p in wit if p['status'] != 'FAILURE') - set(r['witnesses_fired']))
@@ -241,24 +260,49 @@ class Runner:
             return '0x%xULL' % x
         return '0'
 
+    @staticmethod
+    def bits_to_c(bits):
+        x = int(bits.replace(' ', ''), 2); n = len(bits.replace(' ', ''))
+        if n > 64: return '(((unsigned __int128)0x%xULL << 64) | 0x%xULL)' % (x >> 64, x & (2**64 - 1))
+        return '0x%xULL' % x
+
+    def trace_values(self, ob, extra_defines, prop_name, backend):
+        """inputs of the harness function from cbmc's plain-text counterexample trace (streamed: JSON traces of loop-heavy
+        obligations reached gigabytes): first assignment to each simple identifier inside the harness function"""
+        cmd = [c for c in self.cbmc_cmd(ob, extra_defines, prop_name, backend) if c != '--json-ui']
+        tf = os.path.join(self.units[ob.unit].dir, 'trace_%s.txt' % hashlib.md5((ob.name + prop_name).encode()).hexdigest()[:10])
+        env = dict(os.environ); env['PATH'] = os.path.join(ROOT, 'tools', 'shim') + ':' + env['PATH']
+        with open(tf, 'w') as out:
+            try: subprocess.run(cmd, stdout=out, stderr=subprocess.DEVNULL, timeout=ob.timeout or 900, env=env)
+            except subprocess.TimeoutExpired: pass
+        vals = {}; fn = None
+        hdr = re.compile(r'^State \d+ file \S+ function (\S+) line \d+')
+        asg = re.compile(r'^  ([A-Za-z_]\w*)=(.*)$')
+        with open(tf, errors='replace') as f:
+            for line in f:
+                m = hdr.match(line)
+                if m: fn = m.group(1); continue
+                if fn != ob.fn: continue
+                m = asg.match(line.rstrip('\n'))
+                if not m or m.group(1) in vals: continue
+                rhs = m.group(2)
+                ma = re.search(r'\(\{ ([01 ,]+) \}\)$', rhs)
+                if ma: vals[m.group(1)] = '{' + ', '.join(self.bits_to_c(b) for b in ma.group(1).split(',')) + '}'; continue
+                ms = re.search(r'\(([01 ]+)\)$', rhs)
+                if ms and not re.match(r'^[A-Za-z_]', rhs): vals[m.group(1)] = self.bits_to_c(ms.group(1))
+        try: os.remove(tf)
+        except OSError: pass
+        return vals
+
     def make_replay(self, ob, extra_defines, prop_name, descr, backend=None):
         u = self.units[ob.unit]
-        r = self.run_cbmc(ob, extra_defines, trace_property=prop_name, backend=backend)
-        trace = None
-        for p in r.get('props', []):
-            if p['property'] == prop_name and p.get('trace'): trace = p['trace']
         rdir = os.path.join(OUT, 'replay', self.id, re.sub(r'[^A-Za-z0-9_.-]', '_', ob.name))
         shutil.rmtree(rdir, ignore_errors=True); os.makedirs(rdir)
-        vals = {}
-        if trace:
-            for st in trace:
-                if st.get('stepType') == 'assignment' and st.get('assignmentType') == 'variable' and \
-                        st.get('sourceLocation', {}).get('function') == ob.fn and re.match(r'^[A-Za-z_]\w*$', st.get('lhs', '')):
-                    vals.setdefault(st['lhs'], st['value'])
+        vals = self.trace_values(ob, extra_defines, prop_name, backend)
         with open(os.path.join(rdir, 'replay_values.h'), 'w') as f:
             f.write('/* inputs of the cbmc counterexample: property %s obligation %s\n   violated: %s (%s) */\n' % (self.id, ob.name, descr, prop_name))
             for k, v in vals.items():
-                f.write('#define REPLAY_%s %s\n' % (k, self.cinit(v)))
+                f.write('#define REPLAY_%s %s\n' % (k, v))
             # inputs of the other harness functions of the same source file (never executed in this replay)
             for hp in self.hpaths(u):
                 txt = open(hp).read()
@@ -277,14 +321,19 @@ class Runner:
     def run_replay(self, rdir, u, fn, defs):
         """build the harness against the REAL wrappers (g++ -fsanitize=address,undefined) with the recorded inputs"""
         d = u.dir
-        inc = ['-I' + os.path.join(REPO, 'include'), '-I' + os.path.join(ROOT, 'props', self.id), '-I' + RT]
+        inc = ['-I' + os.path.join(REPO, 'include'), '-I' + os.path.join(ROOT, 'props', self.id), '-I' + RT] + u.inc
         san = ['-fsanitize=address,undefined', '-fno-sanitize-recover=undefined', '-g']
-        real = os.path.join(rdir, 'real_san.o')
-        rc, out, err, _ = sh(['g++'] + REALFLAGS + san + u.cxxflags + inc + ['-c', os.path.join(d, 'wrappers.cpp'), '-o', real], timeout=600)
-        if rc != 0: return 'replay-build-failed', err[-2000:]
+        real = os.path.join(d, 'real_san.o')
+        with self.gb_lock:
+            lk = self.san_locks.setdefault(u.name, threading.Lock())
+        with lk:
+            if not os.path.exists(real):
+                rc, out, err, _ = sh(['g++'] + REALFLAGS + san + u.cxxflags + inc + ['-c', os.path.join(d, 'wrappers.cpp'), '-o', real + '.tmp'], timeout=900)
+                if rc != 0: return 'replay-build-failed', err[-2000:]
+                os.rename(real + '.tmp', real)
         exe = os.path.join(rdir, 'replay')
         rc, out, err, _ = sh(['gcc', '-O0', '-g', '-w', '-DVERIF_REPLAY', '-DVERIF_REAL', '-DHARNESS=' + fn, '-I' + rdir, '-I' + RT, '-I' + d,
-                              '-I' + os.path.join(ROOT, 'props', self.id)] + ['-D' + x for x in defs] + san + self.hpaths(u) +
+                              '-I' + os.path.join(ROOT, 'props', self.id)] + u.inc + ['-D' + x for x in defs] + san + self.hpaths(u) +
                              [os.path.join(RT, 'native_main.c'), real] + u.real_extra + ['-o', exe, '-lstdc++', '-lm'], timeout=600)
         if rc != 0: return 'replay-build-failed', err[-2000:]
         env = dict(os.environ); env['ASAN_OPTIONS'] = 'detect_leaks=0'
@@ -293,6 +342,33 @@ class Runner:
         if rc == 0: return 'solver-only', txt
         if rc == 3 and 'REPLAY-ASSUME-FALSE' in out: return 'assumption-false', txt
         return 'reproduced', txt
+
+    def handle_fail(self, name, ob, kfd, r):
+        """a failed obligation: build and run the native replay; for a lockstep divergence decide again without sharing"""
+        h = {'extra_q': 0, 'extra_s': 0.0, 'failed': r['failed']}
+        # prefer an assertion of the harness itself (a statement of the property) over failures inside models
+        own = [x for x in r['failed'] if x[0].startswith(ob.fn + '.')]
+        lock = [x for x in r['failed'] if x[1].startswith('lockstep:')]
+        pn, descr = (own or r['failed'])[0]
+        if lock:
+            # reference model and (changed?) implementation no longer multiply the same operands in the same order, so the
+            # shared-circuit verdicts mean nothing.  The input on which the operand sequences diverge is replayed natively
+            # (real arithmetic on both sides): if the results differ there, that is the violation.  Otherwise the obligation
+            # is decided again without sharing (-DNO_LOCKSTEP) on the SMT back end with a long budget.
+            rdir, status, out = self.make_replay(ob, kfd, lock[0][0], lock[0][1], backend=r.get('backend_used'))
+            if status != 'reproduced':
+                r2 = self.run_cbmc(ob, list(kfd) + ['NO_LOCKSTEP'], backend=getattr(ob, 'fallback_backend', 'cvc5'), timeout=900)
+                h['extra_q'] += 1; h['extra_s'] += r2['time_s']
+                if r2['status'] == 'pass': h.update(kind='pass', r=r2); return h
+                if r2['status'] != 'fail':
+                    h.update(kind='inconclusive', msg='obligation %s: operand sequences of implementation and reference differ and the unshared query gave %s' % (name, r2['status'])); return h
+                own = [x for x in r2['failed'] if x[0].startswith(ob.fn + '.')]
+                pn, descr = (own or r2['failed'])[0]; h['failed'] = r2['failed']
+                rdir, status, out = self.make_replay(ob, list(kfd) + ['NO_LOCKSTEP'], pn, descr, backend=r2.get('backend_used'))
+        else:
+            rdir, status, out = self.make_replay(ob, kfd, pn, descr, backend=r.get('backend_used'))
+        h.update(kind='violation', rdir=rdir, status=status, out=out)
+        return h
 
     # ------------------------------------------------------------------ main flow
     def run(self):
@@ -304,7 +380,7 @@ class Runner:
             obs = [o for o in obs if re.search(self.only, o.name)]
             units = [u for u in units if any(o.unit == u.name for o in obs)]
         ev = {'property_id': self.id, 'tier': self.tier, 'seed': self.seed, 'level': 'model_checking', 'violations': 0}
-        results = {}; tvres = []; violations = []; known = []; inconclusive = []
+        results = {}; tvres = []; violations = []; known = []; inconclusive = []; handled = {}
         try:
             with cf.ThreadPoolExecutor(self.jobs) as ex:
                 for u in ex.map(self.build_unit, units): self.units[u.name] = u
@@ -334,6 +410,9 @@ class Runner:
                     k, ob = a
                     return k, ob, self.decide(ob, ['KF_ONLY_' + k['id'].replace('-', '_')])
                 kres = list(ex.map(kjob, kjobs))
+                # counterexamples are replayed (and lockstep divergences re-decided) in parallel
+                fails = [(name, ob, kfd, r) for name, (ob, kfd, r) in results.items() if r['status'] == 'fail']
+                handled = dict(zip([f[0] for f in fails], ex.map(lambda f: self.handle_fail(*f), fails)))
         except Inconclusive as e:
             inconclusive.append(str(e)); kres = []
         # ---- evaluate
@@ -346,32 +425,15 @@ class Runner:
                 else:
                     nontrivial += 1
             elif r['status'] == 'fail':
-                # prefer an assertion of the harness itself (a statement of the property) over failures inside models
-                own = [x for x in r['failed'] if x[0].startswith(ob.fn + '.')]
-                lock = [x for x in r['failed'] if x[1].startswith('lockstep:')]
-                pn, descr = (own or r['failed'])[0]
-                if lock:
-                    # reference model and (changed?) implementation no longer multiply the same operands in the same order, so the
-                    # shared-circuit verdicts mean nothing.  The input on which the operand sequences diverge is replayed natively
-                    # (real arithmetic on both sides): if the results differ there, that is the violation.  Otherwise the obligation
-                    # is decided again without sharing (-DNO_LOCKSTEP) on the SMT back end with a long budget.
-                    rdir, status, out = self.make_replay(ob, kfd, lock[0][0], lock[0][1], backend=r.get('backend_used'))
-                    if status != 'reproduced':
-                        r2 = self.run_cbmc(ob, list(kfd) + ['NO_LOCKSTEP'], backend=getattr(ob, 'fallback_backend', 'cvc5'), timeout=900)
-                        nq += 1; solver_s += r2['time_s']
-                        if r2['status'] == 'pass':
-                            nontrivial += 1; results[name] = (ob, kfd, r2); continue
-                        if r2['status'] != 'fail':
-                            inconclusive.append('obligation %s: operand sequences of implementation and reference differ and the unshared query gave %s' % (name, r2['status'])); continue
-                        own = [x for x in r2['failed'] if x[0].startswith(ob.fn + '.')]
-                        pn, descr = (own or r2['failed'])[0]
-                        rdir, status, out = self.make_replay(ob, list(kfd) + ['NO_LOCKSTEP'], pn, descr, backend=r2.get('backend_used'))
-                    elif own:
-                        descr = 'result differs from the reference on the input where the multiplication sequences diverge (%s)' % own[0][1]
+                h = handled[name]
+                nq += h['extra_q']; solver_s += h['extra_s']
+                if h['kind'] == 'pass':
+                    nontrivial += 1; r = h['r']; results[name] = (ob, kfd, r)
+                elif h['kind'] == 'inconclusive':
+                    inconclusive.append(h['msg'])
                 else:
-                    rdir, status, out = self.make_replay(ob, kfd, pn, descr, backend=r.get('backend_used'))
-                violations.append({'obligation': name, 'violated': ['%s [%s]' % (d, p) for p, d in r['failed']][:6], 'replay': rdir, 'replay_status': status,
-                                   'replay_output': out[-600:]})
+                    violations.append({'obligation': name, 'violated': ['%s [%s]' % (d, p) for p, d in h['failed']][:6], 'replay': h['rdir'], 'replay_status': h['status'],
+                                       'replay_output': h['out'][-600:]})
             else:
                 inconclusive.append('obligation %s: %s %s' % (name, r['status'], '; '.join(r['errors'])[:600]))
             if len(samples) < 12 or r['status'] != 'pass':
